@@ -63,13 +63,13 @@ func c07r1(r *R) {
 	hm := r.method(mpkg, "proxyConn", "handleMITM")
 	ok := false
 	for _, c := range calls(hm, nameIs("(*martian/mitm.Config).TLSForHost")) {
-		ok = describe(c.Common().Args[2]) == "$1.Host"
+		ok = describe(refArgs(c.Common())[2]) == "$1.Host"
 	}
 	r.check(ok, "handleMITM#TLSForHost(req.Host)", hm.Pos(), "fallback name is the CONNECT authority", "MITM TLS config is not built for the CONNECT request's host")
 	// the TLS server is given exactly that config
 	ok = false
 	for _, c := range calls(hm, nameIs("crypto/tls.Server")) {
-		ok = strings.HasPrefix(describe(c.Common().Args[1]), "(*martian/mitm.Config).TLSForHost($0.Proxy.MITMConfig, ")
+		ok = strings.HasPrefix(describe(refArgs(c.Common())[1]), "(*martian/mitm.Config).TLSForHost($0.Proxy.MITMConfig, ")
 	}
 	r.check(ok, "handleMITM#tls.Server(config)", hm.Pos(), "handshake served with the per-host config", "MITM handshake does not use the per-host TLS config")
 }
